@@ -671,9 +671,11 @@ func (k *Case) runProps() (line, verdict string) {
 			renamed = true
 		}
 		if cls == "reloadfail" {
-			tainted = true // two storage failures in one request: outside the property's fault model
-		} else if o.K == "rs" && cls == "ok" {
-			tainted = false
+			// two storage failures in one request: outside the property's fault model. Cache and
+			// database may now disagree, and whatever is written while they do can be anything (e.g.
+			// the last real super admin deleted because the cache counts a phantom one), so the
+			// predicates are not evaluated for the rest of this sequence.
+			tainted = true
 		}
 		if tainted {
 			continue
